@@ -271,3 +271,40 @@ func cwalkTerm(o *walkOut) (string, int) {
 	}
 	return "[" + strings.Join(items, "; ") + "]", events
 }
+
+// ModelledCommentCheckers are the comment-based checkers of Model_Comments.v (run_by_name_c).
+var ModelledCommentCheckers = []string{"deprecatedComment"}
+
+// ConvertDocTexts renders the text of every comment that belongs to a Doc group as a term of type Model_Comments.ctexts.
+func ConvertDocTexts(f *File) string {
+	tf := Fset.File(f.AST.Pos())
+	seen := map[*ast.CommentGroup]bool{}
+	var items []string
+	add := func(doc *ast.CommentGroup) {
+		if doc == nil || seen[doc] {
+			return
+		}
+		seen[doc] = true
+		for _, c := range doc.List {
+			items = append(items, fmt.Sprintf("(%d,%s)", tf.Offset(c.Pos())+1, coqfmt.Str(c.Text)))
+		}
+	}
+	ast.Inspect(f.AST, func(n ast.Node) bool {
+		switch x := n.(type) {
+		case *ast.FuncDecl:
+			add(x.Doc)
+		case *ast.GenDecl:
+			add(x.Doc)
+		case *ast.ImportSpec:
+			add(x.Doc)
+		case *ast.ValueSpec:
+			add(x.Doc)
+		case *ast.TypeSpec:
+			add(x.Doc)
+		case *ast.Field:
+			add(x.Doc)
+		}
+		return true
+	})
+	return "{| c_text := [" + strings.Join(items, ";") + "] |}"
+}
